@@ -1021,8 +1021,8 @@ def _expected(spec, index, network):
 
 
 def _odd_wif_in_tr(spec):
-    """a WIF written where only x-only keys are written, whose public key has odd y (known finding
-    `roundtrip.xonly_wif_odd_y`: the parsed object keeps the 03… bytes, the written text re-reads as 02…)."""
+    """a WIF written where only x-only keys are written, whose public key has odd y (regression of the repaired
+    finding `roundtrip.xonly_wif_odd_y`: the parsed object kept the 03… bytes, the written text re-read as 02…)."""
     return spec[0] in ("tr", "rawtr") and any(k.kind == "wif" and k.sec[0] == 3 for k in spec_keys(spec))
 
 
